@@ -604,5 +604,117 @@ Definition exchange_then_glue (stream : bool) (id : N) (q : question) (replies :
   end.
 
 (* ------------------------------------------------------------------ *)
+(* the delegation cache (Resolver.delegations) as state, across any history of authority sections.
+
+   Resolver.processAuthoritySection (minimized = false) -> processDelegation.  resolve() hands it EVERY reply
+   whose Answer is empty and whose Authority is not - whatever the response code (an NXDOMAIN / SERVFAIL /
+   REFUSED reply surfaced by pickFallbackResponse included), so [u_rcode] is not looked at anywhere below.
+
+   An entry is what authority.Servers carries: the Zone label every bailiwick test for replies of those
+   servers is made against (FilterRRsToZone in Resolver.answer, validReferral, checkHosts), the NS host names
+   and the server addresses.  processDelegation sets Zone = the NS owner before anything is published;
+   lookupV4Nss publishes the set found so far under the same key before each host it has to find an address for
+   (the provisional entry nested lookups are routed through) - [dr_snaps] records those publications, each with
+   a flag telling whether an address lookup went out next (the moment a driver can look at the entry). *)
+Record deleg_entry := mk_de { de_zone : name; de_hosts : list name; de_servers : list ipaddr }.
+Definition deleg_cache := list (name * deleg_entry).
+
+Fixpoint deleg_get (k : name) (c : deleg_cache) : option deleg_entry :=
+  match c with
+  | [] => None
+  | (m, e) :: r => if name_eqb k m then Some e else deleg_get k r
+  end.
+Fixpoint deleg_put (k : name) (e : deleg_entry) (c : deleg_cache) : deleg_cache :=
+  match c with
+  | [] => [(canon k, e)]
+  | (m, v) :: r => if name_eqb k m then (m, e) :: r else (m, v) :: deleg_put k e r
+  end.
+
+Definition add_servers (addrs srv : list ipaddr) : list ipaddr :=
+  fold_left (fun s a => if mem_ip a s then s else s ++ [a]) addrs srv.
+
+(* the loop of lookupV4Nss over the hosts in sortHosts order ([order]: computed by the caller):
+   state = NS-address cache, Hosts so far, List so far, provisional publications so far *)
+Definition ns_state := (glue_cache * list name * list ipaddr * list (bool * deleg_entry))%type.
+(* a publication: (did an address lookup go out after it, the entry as published) *)
+Definition publish (owner : name) (hs : list name) (srv : list ipaddr) (asked : bool) (snaps : list (bool * deleg_entry)) :=
+  match srv with [] => snaps | _ => snaps ++ [(asked, mk_de owner hs srv)] end.
+Definition ns_lookup_step (local : list ipaddr) (owner : name) (found : list name) (answers : list (name * list rr))
+           (st : ns_state) (h : name) : ns_state :=
+  let '(gc, hs, srv, snaps) := st in
+  let hs' := hs ++ [canon h] in
+  if mem_name h found then (gc, hs', srv, snaps) else
+  match glue_lookup h gc with
+  | Some v => (gc, hs', add_servers v srv, publish owner hs' srv false snaps)   (* lookupNSAddrV4 answers from the NS-address cache *)
+  | None =>
+      let snaps' := publish owner hs' srv true snaps in
+      match answers_get h answers with
+      | Some ans =>
+          match search_addrs local ans with
+          | [] => (gc, hs', srv, snaps')
+          | a => (glue_put h a gc, hs', add_servers a srv, snaps')
+          end
+      | None => (gc, hs', srv, snaps')
+      end
+  end.
+
+Inductive deleg_outcome :=
+| DoAuthority      (* no NS host or a SOA rode along: Resolver.authority, nothing reaches the delegation cache *)
+| DoRejected       (* validReferral failed: errParentDetection *)
+| DoParent         (* rs.level > CountLabel(owner): parent detection *)
+| DoCached         (* the delegation is on file: resolveWithCachedNameservers, nothing is written *)
+| DoNoServers      (* no address for any host: errNoReachableAuth *)
+| DoStored.        (* r.delegations.SetUntil(key, ..., authservers, ...) *)
+
+Record deleg_result := mk_dr { dr_outcome : deleg_outcome; dr_snaps : list (bool * deleg_entry); dr_final : option deleg_entry }.
+
+Inductive deleg_event :=
+| DelegMsg (auth : name) (level : nat) (q : question) (m : umsg) (order : list name) (answers : list (name * list rr)).
+
+Definition deleg_state := (glue_cache * deleg_cache)%type.
+
+Definition deleg_apply (local : list ipaddr) (st : deleg_state) (e : deleg_event) : deleg_state * deleg_result :=
+  let '(gc, dc) := st in
+  match e with
+  | DelegMsg auth level q m order answers =>
+      let i := extract_info (u_ns m) in
+      match di_hosts i with
+      | [] => (st, mk_dr DoAuthority [] None)
+      | _ =>
+        if di_has_soa i then (st, mk_dr DoAuthority [] None)
+        else if negb (valid_referral i auth q) then (st, mk_dr DoRejected [] None)
+        else match di_owner i with
+             | None => (st, mk_dr DoRejected [] None)
+             | Some o =>
+                 if Nat.ltb (length o) level then (st, mk_dr DoParent [] None)
+                 else match deleg_get o dc with
+                      | Some _ => (st, mk_dr DoCached [] None)
+                      | None =>
+                          let g := check_glue false local level (q_name q) (di_hosts i) (u_extra m) in
+                          let gc1 := fold_left (fun c p => glue_put (fst p) (snd p) c) (gr_addrs4 g) gc in
+                          let '(gc2, hs, srv, snaps) :=
+                            fold_left (ns_lookup_step local o (gr_found4 g) answers) (filter (fun h => mem_name h (di_hosts i)) order)
+                                      (gc1, [], gr_servers g, []) in
+                          (* a provisional publication stays on file when no final store follows; the final
+                             store overwrites it under the same key *)
+                          match srv with
+                          | [] => ((gc2, dc), mk_dr DoNoServers snaps None)
+                          | _ => let e := mk_de o hs srv in ((gc2, deleg_put o e dc), mk_dr DoStored snaps (Some e))
+                          end
+                      end
+             end
+      end
+  end.
+
+Fixpoint deleg_history (local : list ipaddr) (st : deleg_state) (evs : list deleg_event) : deleg_state * list deleg_result :=
+  match evs with
+  | [] => (st, [])
+  | e :: rest =>
+      let '(st1, r) := deleg_apply local st e in
+      let '(st2, rs) := deleg_history local st1 rest in
+      (st2, r :: rs)
+  end.
+
+(* ------------------------------------------------------------------ *)
 (* source text helper for the shape ties *)
 Definition s2b (s : string) : list N := map (fun c => N_of_ascii c) (list_ascii_of_string s).
